@@ -7,9 +7,10 @@
 #   operation (file)        off-circuit (Rust -> Lean)                      in-circuit (Rust -> Lean, gadget level)
 #   load                    load_offcircuit/check_loadable -> loadOff, getT load_incircuit/convert_values -> loadCVal, assignBoundedShape
 #   publish                 as_public_input -> encodeOne / encodePI         publish_incircuit -> publishIn, publishAll (+ get_type -> CVal.type)
-#   assert_equal            derived PartialEq -> opOff (.assertEq)          assert_equal_incircuit -> comparableIn
-#   assert_not_equal        derived PartialEq -> opOff (.assertNe)          assert_not_equal_incircuit -> comparableIn
-#   is_equal                derived PartialEq -> opOff (.isEq)              is_equal_incircuit -> comparableIn
+#   assert_equal            derived PartialEq -> opOff (.assertEq)          assert_equal_incircuit -> comparableIn + cmpCalls (gadget calls laid out)
+#   assert_not_equal        derived PartialEq -> opOff (.assertNe)          assert_not_equal_incircuit -> comparableIn + cmpCalls
+#   is_equal                derived PartialEq -> opOff (.isEq)              is_equal_incircuit -> comparableIn + bytesIsEqualIn / bytesIsEqualCalls / cmpCalls
+#   (zkir.rs)               -                                               used_chips -> usedChips; constants.rs parse_bool -> parseConst (one-character branch)
 #   add                     add_offcircuit -> addOff                        add_incircuit -> addIn, addShape (addBounds, normalizeShape)
 #   sub                     sub_offcircuit -> subOff                        sub_incircuit -> subIn, subShape
 #   mul                     mul_offcircuit -> mulOff                        mul_incircuit -> mulIn, mulShape (mulRows)
@@ -30,7 +31,11 @@ CHECK = {
     "level": "proof",
     "technique": "executable model of both ZKIR interpreters + simulation proof (with an invariant bounding every in-circuit "
                  "BigUint by its limb bounds, which makes format_instance total) + three-way differential run with "
-                 "per-instruction off-circuit values and per-instruction in-circuit types; dispatch tables and the list of "
+                 "per-instruction off-circuit values, per-instruction in-circuit types and, for every comparison instruction, the "
+                 "number of native is_equal / assert_equal gadget regions the real synthesis lays out (region names recorded by an "
+                 "Assignment backend of the harness, prefix differencing); arms of the three comparison functions regenerated from the "
+                 "sources and pinned; dishonest-witness / forged-public-input search on "
+                 "wrap-around pairs for every comparison on every type; dispatch tables and the list of "
                  "operation sources regenerated from the Rust sources; "
                  "executable models of the bincode decoder and of the serde JSON reader/writer + round-trip, injectivity and "
                  "canonical-form proofs + decoder correspondence on mutated encodings",
@@ -39,7 +44,15 @@ CHECK = {
             "constants and publication of every type, their ill-formed variants (wrong arity, duplicate / missing names, "
             "retargeted inputs, malformed constants, missing / ill-typed / out-of-range witnesses); non-trivial = at least 2 "
             "instructions; distinctness by hash of the request line; every `run` line also carries the in-circuit type of the outputs of "
-            "every instruction (section shp). Serialisation: one `dec` request per byte string "
+            "every instruction (section shp), the gadget calls of every comparison (section ieq) and the chip switches of "
+            "used_chips (section arch); batch compare-wrap: IsEqual+Publish / AssertNotEqual / AssertEqual on Bytes(n), n in "
+            "{1,2,31,32,33,64}, BigUint(8..400), Native, Bool, JubjubPoint on pairs of DIFFERENT values that a lossy comparison "
+            "would identify (x and x + k*p as little-endian bytes, 0 and the bytes of p, p-1 and 2p-1, differences of 2^248 / "
+            "2^255 / 2^256 / the limb base 2^96, first byte only, last byte only, one random bit; G and -G) next to equal pairs, and "
+            "FromBytes / IntoBytes round trips on non-canonical 32- and 33-byte strings (p, p+-1, 2^255+-.., all ones); "
+            "7 of every 25 random programs bind variables whose names are valid constant literals (c0, beef, b0, 0, 1, ff, 00, "
+            "0xab, cafe01) by Load and as operation outputs and use them as inputs afterwards (counted in the distribution). "
+            "Serialisation: one `dec` request per byte string "
             "(bytes of the real encoder and of a fault-injecting encoder: valid, truncated, extended, flipped / set / inserted "
             "bytes, over-wide integers, u128 / reserved markers, out-of-range variant indices, over-long lengths around the "
             "limit, boundary payloads 0 / 250 / 251 / 2^16 / 2^32 / 2^64-1, empty / multi-byte / ill-formed UTF-8 names, wrong "
@@ -53,9 +66,17 @@ CHECK = {
                    "error class, in-circuit compilation verdict with the recorded public-input types (BigUint limb-bound "
                    "bookkeeping), the in-circuit type of the outputs of EVERY instruction (section shp: one witness-free pass over "
                    "the program with `Publish <outputs>` inserted after each instruction, so that the limb bookkeeping of a value "
-                   "that is consumed but never published is compared too), raw public inputs, mock-checker verdict on the compiled circuit, bytes of write_relation, JSON "
+                   "that is consumed but never published is compared too), for every AssertEqual / AssertNotEqual / IsEqual instruction k the "
+                   "number of regions named `is_equal (i)` (native_chip.rs: is_equal) and `Assert equal` that the instruction itself lays "
+                   "out in the real witness-free synthesis (section ieq: regions of prog[..=k] minus regions of prog[..k], recorded through "
+                   "the public Assignment trait; the model predicts n / n for IsEqual on Bytes(n), n / n+1 for AssertNotEqual, 0 / n for "
+                   "AssertEqual, limb count for BigUint, 2 for points, 1 for Native, 0 for Bool: a comparison done through fewer gadget "
+                   "calls, e.g. one packed field element instead of n bytes, changes the line; deliberately tight: a re-implementation "
+                   "of a comparison with other gadgets - or a renaming of these two region names in native_chip.rs - fires even if sound), the chip switches of used_chips (section arch), raw public inputs, mock-checker verdict on the compiled circuit, bytes of write_relation, JSON "
                    "text of the derived Serialize; the harness checks the property's oracle directly on the real code (no panic, "
-                   "off-circuit success => circuit satisfied with encode(P), off-circuit failure => circuit not satisfied, API "
+                   "off-circuit success => circuit satisfied with encode(P) AND not satisfied when a published Boolean of the instance "
+                   "is flipped or when the first / last raw instance value is moved by one (forged public input, same witness; skipped for "
+                   "programs of finding N7), off-circuit failure => circuit not satisfied, API "
                    "consistency, JSON and binary round trips). Proved about the two interpreters: off_in_agree_partial, "
                    "off_fail_unsat_partial (hypothesis RunRegular = finding N7 only), typing_errors_agree (an off-circuit rejection "
                    "that is not a witness condition is an error VALUE in-circuit too; an in-circuit error other than the comparison "
@@ -64,7 +85,17 @@ CHECK = {
                    "the hypothesis `format_instance returns a value` of off_in_agree_partial is discharged by the invariant that "
                    "every BigUint of the in-circuit memory is bounded by its limb bounds - sums, products, differences, remainders, "
                    "byte conversions, loads, constants), dispatch_matches_source and operation_sources_all_mirrored (the arms of "
-                   "both process_instruction functions and the functions of instructions/operations/, parsed on every run). "
+                   "both process_instruction functions and the functions of instructions/operations/, parsed on every run), "
+                   "bytes_is_equal_sound (the per-byte conjunction of is_equal_incircuit returns v = w for every length, n gadget "
+                   "calls), is_equal_in_bytes_is_bytewise (the model's IsEqual on bytes is that conjunction), "
+                   "compare_bytes_lays_out_one_call_per_byte (the ieq line of Load Bytes(n); compare, for every n), "
+                   "compare_biguint_lays_out_one_call_per_limb (ceil(nb/96) calls for every width), compare_fixed_size_types_layout, "
+                   "comparison_arms_match_source (the arms of the three in-circuit comparisons - operand pairs, guards, gadget methods "
+                   "and iterator adaptors in order - parsed from assert_equal.rs / assert_not_equal.rs / is_equal.rs on every run; "
+                   "deliberately tight: a rewritten arm fires even if sound), "
+                   "packed_compare_unsound_from_32 (for every n >= 32 two different n-byte arrays - bytes of p, zeros - that a "
+                   "comparison of the packed native elements identifies) and packed_compare_sound_up_to_31 (why shorter arrays "
+                   "cannot show it), used_chips_cover_program (every chip an instruction or a Jubjub constant needs is switched on). "
                    "Serialisation (last clause of the property): Lean models of "
                    "read_relation (bincode 2 standard configuration: varints, u32 variant indices, length-prefixed vectors and "
                    "UTF-8 strings, the claim/unclaim accounting of the 2^24-byte limit, trailing bytes left unread, then the arity "
@@ -95,7 +126,8 @@ CHECK = {
                    "literal index expressions)",
     "trusted_base": [
         "gadgets of midnight-circuits / zk_stdlib are taken at their specification at the gadget boundary (properties C04-C07): "
-        "the in-circuit model says what each compiled ZKIR operation computes and constrains, not how rows are laid out",
+        "the in-circuit model says what each compiled ZKIR operation computes and constrains, not how rows are laid out - except "
+        "for the three comparison operations, whose native is_equal / assert_equal region counts are predicted and compared",
         "SHA-256, SHA-512 and Poseidon are uninterpreted functions of the model (the harness passes the digests observed "
         "off-circuit in the request; the in-circuit chips are assumed to compute the same functions: C07)",
         "bincode 2.0.1 and serde / serde_json are third-party code modelled from their sources (decoder, derived impls, limit "
@@ -117,7 +149,8 @@ CHECK = {
                   "hash functions uninterpreted; agreement of values, of typing errors and of the public-input encoding) and of the binary and JSON readers/writers of programs (round trips, injectivity, "
                   "exact canonical form), with the model compared line by line with the real loader, interpreter, compiler, "
                   "public-input encoder, mock checker, serialisers and deserialisers on generated programs, byte strings and JSON "
-                  "trees on every run (per-instruction values off-circuit, per-instruction types in-circuit), and the dispatch of "
+                  "trees on every run (per-instruction values off-circuit, per-instruction types and per-comparison gadget calls in-circuit, "
+                  "wrap-around pairs with honest and forged public inputs for every comparison), and the dispatch of "
                   "both interpreters regenerated from the sources",
     "level_note": "Trusted: Lean kernel, the correspondence harness and driver; gadget internals below the ZKIR operation level "
                   "(C04-C07) and the hash functions are specified, not verified. off_in_agree / off_fail_unsat are proved as "
@@ -130,7 +163,9 @@ CHECK = {
                   "value on both sides for every off-circuit rejection that is not a witness condition); format_instance "
                   "succeeding is no longer a hypothesis: off_in_agree_public_inputs_partial proves it (for byte arrays holding "
                   "bytes and ModExp exponents below 2^64, as every Rust value) - it stays `_partial` only for RunRegular and the "
-                  "static-rejection alternative. Round trips: the binary one "
+                  "static-rejection alternative. The comparison theorems (bytes_is_equal_sound, packed_compare_*) are about the "
+                  "structure of is_equal_incircuit mirrored in the model; that the real code has this structure is tied by the "
+                  "region counts (ieq) and by the wrap-around pairs through the mock checker, not proved. Round trips: the binary one "
                   "holds under an explicit bound of the decoder's 2^24-byte allocation limit (programs beyond it are written but "
                   "not read back: decode_rejects_beyond_limit, more than 233016 instructions); canonical form is `_partial`: "
                   "read_relation also accepts over-wide integers (exactly those: strict-decoder theorem, equivalence "
